@@ -3,6 +3,7 @@ import Driver.Orswot
 import Driver.Rpc
 import Driver.Node
 import Driver.Store
+import Driver.Group
 /- `dcdriver`: reads a case file on stdin, answers every line with the model's output. -/
 namespace Driver
 
@@ -13,6 +14,7 @@ inductive Dom where
   | rpc (s : RpcDom.State)
   | node (s : NodeDom.State)
   | store (s : StoreDom.State)
+  | group (s : GroupDom.State)
 
 def newDom (name : String) (params : List String) : Dom :=
   match name with
@@ -21,6 +23,7 @@ def newDom (name : String) (params : List String) : Dom :=
   | "rpc" => .rpc {}
   | "node" => .node {}
   | "store" => .store {}
+  | "group" => .group {}
   | _ => .none
 
 def stepDom (d : Dom) (toks : List String) : Dom × String :=
@@ -31,6 +34,7 @@ def stepDom (d : Dom) (toks : List String) : Dom × String :=
   | .rpc s => let (s', o) := RpcDom.step s toks; (.rpc s', o)
   | .node s => let (s', o) := NodeDom.step s toks; (.node s', o)
   | .store s => let (s', o) := StoreDom.step s toks; (.store s', o)
+  | .group s => let (s', o) := GroupDom.step s toks; (.group s', o)
 
 partial def loop (h : IO.FS.Stream) (out : IO.FS.Stream) (d : Dom) : IO Unit := do
   let line ← h.getLine
